@@ -33,6 +33,28 @@ def top_of(u):
     return u
 
 
+def r07_6(run):
+    """the initial view is the snapshot: the bootstrap fetches circuit-status and stream-status and feeds each to its loader
+    (which passes every line through the same update functions events use), the routers being loaded first; then it subscribes"""
+    bs = TU(run, '_bootstrap')
+    g = cfg_of(bs)
+    for key, loader, upd in (('circuit-status', '_circuit_status', '_circuit_update'), ('stream-status', '_stream_status', '_stream_update')):
+        fetch = [n for n in g.real_nodes() if n.kind == 'stmt' and isinstance(n.ast, ast.Assign) and any(
+            isinstance(a, ast.Call) and callee_attr(a) in ('get_info_raw', 'get_info') and a.args and const(a.args[0]) == key for a in node_asts(n))]
+        run.ob('R07.6', bs, bs.node, 'the bootstrap fetches %s' % key, len(fetch) == 1, slot='fetch:%s' % key, message='%d fetches of %s' % (len(fetch), key))
+        for fn in fetch:
+            var = assigned_targets(fn.ast)[0]
+            load = g.nodes_where(lambda n: any(is_call_to(a, 'self.' + loader) and a.args and dotted(a.args[0]) == var for a in node_asts(n)))
+            esc = g.escapes(fn, lambda n: n in load, exits=g.normal_exits())
+            run.ob('R07.6', bs, fn.ast, 'the %s snapshot is loaded into the live state' % key, bool(load) and not esc, slot='load:%s' % key,
+                   message='_bootstrap fetches %s but does not pass it to %s on every path: objects that existed before the connection are never listed' % (key, loader))
+        lu = TU(run, loader)
+        calls = [c for c in calls_in(lu) if dotted(c.func) == 'self.' + upd]
+        run.ob('R07.6', lu, lu.node, '%s passes the snapshot lines through %s' % (loader, upd), bool(calls), slot='loader:%s' % loader, message='%s no longer calls %s' % (loader, upd))
+    ev = g.nodes_where(lambda n: any(is_call_to(a, 'self._add_events') for a in node_asts(n)))
+    run.ob('R07.6', bs, bs.node, 'the bootstrap subscribes to the events', bool(ev), slot='subscribe', message='_bootstrap no longer calls _add_events')
+
+
 def r07_5(run):
     """closed/failed circuits are gone: in circuit_closed / circuit_failed the removal lies after code that
     extracts the reason; every helper of the package called before the removal must be total (the
@@ -460,6 +482,7 @@ def r07_4(run):
 
 RULES = [
     ('R07.1', 'index maintenance: circuits/streams written only by the listener callbacks keyed by .id; closed/failed reach circuit_destroy; TorState listens to and updates everything it creates', r07_1),
+    ('R07.6', 'bootstrap: circuit-status and stream-status snapshots fetched, loaded through the event update functions, events subscribed', r07_6),
     ('R07.5', 'totality: helpers called by circuit_closed/circuit_failed before the removal cannot raise (KeyError behind handler or membership test, str-method arity)', r07_5),
     ('R07.2', 'abstract interpretation of Stream.update over (circuit None/Some, listed/unlisted) x every stream state x both invariant states, normal and exceptional exits; who-writes', r07_2),
     ('R07.4', 'status/flags assigned unconditionally from the event; circuit path cleared/recomputed/kept per state', r07_4),
@@ -470,6 +493,7 @@ RULES.insert(2, ('R07.3', 'after CLOSED/FAILED/DETACHED the stream is under no c
 from ..selftest import M  # noqa: E402
 FS, FT, FC = 'txtorcon/stream.py', 'txtorcon/torstate.py', 'txtorcon/circuit.py'
 MUTANTS = [
+    M('stream-snapshot-not-loaded', 'txtorcon/torstate.py', "        ss = yield self.protocol.get_info_raw('stream-status')\n        self._stream_status(ss)\n", "        ss = yield self.protocol.get_info_raw('stream-status')\n", ['R07.6']),
     M('attach-only-for-listed-states', 'txtorcon/stream.py', "        if self.state not in ['CLOSED', 'FAILED', 'DETACHED']:\n            cid = int(args[2])", "        if self.state in ['SENTCONNECT', 'REMAP', 'SUCCEEDED']:\n            cid = int(args[2])", ['R07.2']),
     M('purpose-first-wins', 'txtorcon/circuit.py', "        if 'PURPOSE' in kw:", "        if self.purpose is None and 'PURPOSE' in kw:", ['R07.4']),
     M('reason-join-arity', 'txtorcon/circuit.py', "reason = '{}, {}'.format(reason, kw['REMOTE_REASON'])", "reason = ', '.join(reason, kw['REMOTE_REASON'])", ['R07.5']),
